@@ -504,7 +504,10 @@ def gen_nest(rng, depth, top=True):
       return {'q': rng.choice([[1, 2], [-3, 4], [5, 1], [1, 1024], [0, 1], [7, 8]])}
     if k == 8:
       return rng.choice(['abc', 'x y', '', '__tuple__', 'é'])
-    return None
+    # `None` (the empty DNA) only as the whole value: as a child it is outside the domain on which
+    # the constructor model (C12 `parse`) is validated — the constructor drops / keeps such a
+    # child depending on context (F201 is the replayed example)
+    return None if top else 0
   if depth <= 0:
     return leaf()
   k = rng.weighted([(3, 'leaf'), (3, 'list'), (4, 'tuple'), (1, 'bad')])
